@@ -240,7 +240,7 @@ def judge_lines(lines, c_out):
             q.append((i, "tfivenum", "jfivenum %s | %s" % (" ".join(dec(b) for b in body), " ".join(xw(p) for p in trip))))
         elif op in ("hist", "thist"):
             kv = dict(t.split("=", 1) for t in body if "=" in t)
-            if "bins" in kv:
+            if "bins" in kv and ((op == "hist" and xs is not None) or (op == "thist" and trip is not None)):
                 bins = [kv["bins"]] + [t for t in body[body.index("bins=" + kv["bins"]) + 1:]]
                 data = [x + ":1" for x in xs] if op == "hist" else [xw(p) for p in (trip or [])[:-1]]
                 q.append((i, op, "jhist %s %s %s | %s | %s" % (kv.get("nb"), dec(kv.get("lo")), dec(kv.get("hi")),
